@@ -73,6 +73,7 @@ type c17Case struct {
 	Kinds    []int `json:"kinds,omitempty"`
 	ViaScope bool  `json:"via_scope,omitempty"`
 	Salt     int   `json:"salt,omitempty"`
+	Collide  bool  `json:"collide,omitempty"` // two specifications of equal bucket identity (informative)
 }
 
 // ---------------------------------------------------------------- environment
@@ -1190,6 +1191,120 @@ func c17GenDSpec(r *Rng) []int64 {
 	return out
 }
 
+// c17SpecOK: strictly increasing, finite; for durations also strictly
+// increasing in seconds and below the overflow bucket's bound.
+func c17SpecOK(u int, spec []int64) bool {
+	if len(spec) == 0 {
+		return false
+	}
+	last := math.Inf(-1)
+	for i, x := range spec {
+		var v float64
+		if u == 5 {
+			v = secOf(x)
+			if i > 0 && x <= spec[i-1] {
+				return false
+			}
+			if v >= secOf(math.MaxInt64) {
+				return false
+			}
+		} else {
+			v = math.Float64frombits(uint64(x))
+			if math.IsNaN(v) || math.IsInf(v, 0) {
+				return false
+			}
+		}
+		if !(v > last) {
+			return false
+		}
+		last = v
+	}
+	return true
+}
+
+func c17Sum(spec []int64) uint64 {
+	var s uint64
+	for _, x := range spec {
+		s += uint64(x)
+	}
+	return s
+}
+
+// c17Collide returns a DIFFERENT valid specification of the same kind whose
+// elements (nanoseconds / float64 bit patterns) have the same sum modulo 2^64,
+// hence the same tally bucket identity (23 + 31*sum); nil if none was found.
+func c17Collide(r *Rng, u int, spec []int64) []int64 {
+	zero := int64(0) // 0ns, +0.0: adds nothing to the sum
+	for try := 0; try < 12; try++ {
+		out := append([]int64{}, spec...)
+		switch r.Intn(4) {
+		case 0: // move an amount from one element to another
+			if len(out) < 2 {
+				continue
+			}
+			i := r.Intn(len(out) - 1)
+			j := i + 1 + r.Intn(len(out)-1-i)
+			if u == 4 && (out[i] < 0 || out[j] < 0) {
+				continue // keep to non-negative floats: their bit patterns are ordered like the values
+			}
+			gap := out[j] - out[i]
+			if gap < 3 {
+				continue
+			}
+			d := 1 + int64(r.U64()%uint64((gap-1)/2))
+			if r.Bool() && d > 1 {
+				d = (gap - 1) / 2
+			}
+			out[i] += d
+			out[j] -= d
+		case 1: // add or drop the zero bound
+			has := -1
+			for k, x := range out {
+				if x == zero {
+					has = k
+				}
+			}
+			if has >= 0 {
+				if len(out) < 2 {
+					continue
+				}
+				out = append(out[:has], out[has+1:]...)
+			} else {
+				out = append(out, zero)
+			}
+		case 2: // split one element into two with the same sum
+			k := r.Intn(len(out))
+			x := out[k]
+			if x < 4 {
+				continue
+			}
+			a := x/2 - 1 - int64(r.U64()%uint64(x/4))
+			out = append(out[:k], append([]int64{a, x - a}, out[k+1:]...)...)
+		default: // merge two elements into their sum
+			if len(out) < 2 {
+				continue
+			}
+			k := r.Intn(len(out) - 1)
+			if out[k] < 0 || out[k+1] < 0 || out[k] > math.MaxInt64-out[k+1] {
+				continue
+			}
+			out = append(out[:k], append([]int64{out[k] + out[k+1]}, out[k+2:]...)...)
+		}
+		if u == 5 {
+			sort.Slice(out, func(i, j int) bool { return out[i] < out[j] })
+		} else {
+			sort.Slice(out, func(i, j int) bool {
+				return math.Float64frombits(uint64(out[i])) < math.Float64frombits(uint64(out[j]))
+			})
+		}
+		if len(out) > 7 || !c17SpecOK(u, out) || c17Sum(out) != c17Sum(spec) || fmt.Sprint(out) == fmt.Sprint(spec) {
+			continue
+		}
+		return out
+	}
+	return nil
+}
+
 func c17VSample(r *Rng, spec []int64) int64 {
 	b := math.Float64frombits(uint64(spec[r.Intn(len(spec))]))
 	var v float64
@@ -1346,6 +1461,37 @@ func c17GenScope(r *Rng, i int) c17Case {
 			f.spec = c17GenDSpec(r)
 		}
 		fams = append(fams, f)
+	}
+	if !inconsistent && len(names) > 0 && r.Chance(40) {
+		// two histograms under the one root scope whose different specifications
+		// have the same bucket identity (tally's identity of a specification is
+		// additive in its elements): each must still be binned at its own bounds
+		a := -1
+		for j, f := range fams {
+			if f.u >= 4 {
+				a = j
+			}
+		}
+		if a < 0 {
+			a = r.Intn(nf)
+			fams[a].u = 4 + r.Intn(2)
+			if fams[a].u == 4 {
+				fams[a].spec = c17GenVSpec(r)
+			} else {
+				fams[a].spec = c17GenDSpec(r)
+			}
+		}
+		if s2 := c17Collide(r, fams[a].u, fams[a].spec); s2 != nil {
+			k := r.Intn(len(names))
+			f := fam{name: names[k], u: fams[a].u, keys: r.c17KeySet(), spec: s2}
+			names = append(names[:k], names[k+1:]...)
+			if r.Bool() {
+				f.keys = fams[a].keys
+			}
+			fams = append(fams, f)
+			nf++
+			c.Collide = true
+		}
 	}
 	if inconsistent && nf >= 2 {
 		fams[nf-1].name = fams[0].name
@@ -1659,6 +1805,9 @@ func init() {
 			}
 			if may {
 				stats["flavour_reuse_cases"]++
+			}
+			if c.Collide {
+				stats["equal_identity_spec_cases"]++
 			}
 		}
 		if ctx.Replay != nil {
